@@ -125,6 +125,20 @@ def run(tier, seed):
             return (ret.get("from_seq"), ret.get("compiler_strategy"), [c.get("checkpoint_id") for c in ret.get("compaction_checkpoints", [])],
                     json.dumps(b.get("items"), sort_keys=True))
         v.add_eval({"cache_state_differential": r["id"]}, True)
+        # "the latest frame (by stream order) for one to_seq wins": the selected checkpoint for a to_seq is the last one appended
+        latest = {}
+        for x in r["results"]:
+            for fr in (x.get("log") or {}).get("new_frames", []):
+                if fr.get("kind") == "continuity_compaction_checkpoint_created":
+                    latest[fr.get("to_seq")] = fr.get("checkpoint_id")
+        stale = None
+        for nm, x in zip(names, answers):
+            for cp in ((x.get("ret") or {}).get("compaction_checkpoints") or []) if isinstance(x.get("ret"), dict) else []:
+                if latest.get(cp.get("to_seq")) not in (None, cp.get("checkpoint_id")):
+                    stale = (nm, cp.get("to_seq"), cp.get("checkpoint_id"), latest[cp["to_seq"]])
+        if stale:
+            v.violation(f"compile for {r['id']} ({stale[0]}) selects checkpoint {stale[2]} for to_seq {stale[1]} although a later checkpoint frame for that cut exists ({stale[3]}): "
+                        f"the superseded summary is used", {"engine": "hist", "case": [h for h in dh if h["id"] == r["id"]][0]})
         ref = proj(answers[0])
         for nm, x in zip(names[1:], answers[1:]):
             if proj(x) != ref:
